@@ -277,8 +277,20 @@ def literal_shape(a):
     return name + "(" + ",".join(literal_shape(x) for x in a[1:]) + ")"
 
 
+def max_arity(o):
+    args = getattr(o, "arguments", None)
+    if not args:
+        return 0
+    return max([len(args)] + [max_arity(x) for x in args])
+
+
 def check_eq_pair(api, a, b, oa, ob, stats, fails_out):
     """structural equality implies equal truth value"""
+    if max_arity(oa) > 7 or max_arity(ob) > 7:
+        # the tool compares commutative connectors by trying the permutations of their arguments: beyond 7 arguments a single
+        # comparison takes minutes, which says nothing about the property (and real encodings compare small formulas)
+        stats.classes["== not evaluated (connector with more than 7 arguments)"] += 1
+        return
     try:
         same = (oa == ob)
     except Exception as e:
